@@ -192,6 +192,82 @@ func c01Monitor(c *plCfg, q *plQuery, o *plObs) (ok bool, msg string) {
 	return true, ""
 }
 
+// c01LatestRulesMonitor states the property for the plain situations of a
+// server whose rules were changed while it ran (c is the LATEST accepted
+// configuration, the queue of pending rebuilds is served): looking only at
+// the rules that could concern the name,
+//   - a plain "||name^" block rule and nothing but plain block rules
+//     concerning the name (no exception, no allow-list entry, no modifier):
+//     blocked, answered locally;
+//   - a plain "@@||name^" exception among the block rules, no $important or
+//     $badfilter rule and no allow-list entry concerning the name: not
+//     blocked, forwarded, reported as allow-listed.
+// Unlike plHostVerdict the scope is the name, so rules about other names do
+// not silence the claim.
+func c01LatestRulesMonitor(c *plCfg, q *plQuery, o *plObs) (ok bool, msg string, classes []string) {
+	if c.round2() || o.Panic != nil {
+		return true, "", nil
+	}
+	if (c.AAAADisabled && q.QType == dns.TypeAAAA) || q.Name == mozillaFQDN || q.Name == healthcheckFQDN {
+		return true, "", nil
+	}
+	host := strings.ToLower(strings.TrimSuffix(q.Name, "."))
+	protection, filteringOn, sb, par, svcs := plEffective(c, q)
+	if !protection || !filteringOn || len(svcs) > 0 {
+		return true, "", nil
+	}
+	for _, h := range c.SBHosts {
+		if sb && h == host {
+			return true, "", nil
+		}
+	}
+	for _, h := range c.ParHosts {
+		if par && h == host {
+			return true, "", nil
+		}
+	}
+	for _, r := range c.Allow {
+		if plRelated(r, host) {
+			return true, "", nil
+		}
+	}
+	plainBlock, plainExcept, onlyPlainBlocks, strong := false, false, true, false
+	for _, r := range c.BlockRules() {
+		if !plRelated(r, host) {
+			continue
+		}
+		if r.IsHost || r.Important || r.Badfilter {
+			strong = true
+		}
+		switch {
+		case plPlainBlock(r, host):
+			plainBlock = true
+		case r.White && plPlainPattern(r, host):
+			plainExcept = true
+			onlyPlainBlocks = false
+		default:
+			onlyPlainBlocks = false
+		}
+	}
+	res := o.Result
+	blockedLocally := res != nil && res.IsFiltered && res.Reason == filtering.FilteredBlockList && len(o.Calls) == 0
+	switch {
+	case plainBlock && onlyPlainBlocks:
+		classes = append(classes, "queue-latest-rules-block")
+		if !blockedLocally {
+			return false, fmt.Sprintf("%s is blocked by the configured rules (custom %q, lists %q) but was not answered locally: result %v, upstream asked %v",
+				host, vfRuleTexts(c.Custom), vfRuleTexts(c.Block), res, o.Calls), classes
+		}
+	case plainExcept && !strong:
+		classes = append(classes, "queue-latest-exception-passes")
+		if blockedLocally || len(o.Calls) != 1 || res == nil || res.Reason != filtering.NotFilteredAllowList {
+			return false, fmt.Sprintf("%s is excepted by the configured rules (custom %q, lists %q) but was not let through: result %v, upstream asked %v",
+				host, vfRuleTexts(c.Custom), vfRuleTexts(c.Block), res, o.Calls), classes
+		}
+	}
+	return true, "", classes
+}
+
 func c01Classes(c *plCfg, q *plQuery, o *plObs) (cl []string) {
 	res := o.Result
 	if c.DDR && q.Name == ddrHostFQDN {
@@ -313,6 +389,18 @@ func TestVerifC01(t *testing.T) {
 			ok, msg = false, adMsg
 		}
 		extra = append(extra, adClasses...)
+		if ps.queueMode {
+			// the queue is served (plServer.qAsk): the rules in force are
+			// those of the latest accepted configuration change
+			qOK, qMsg, qClasses := c01LatestRulesMonitor(ps.cfg, q, &o)
+			if ok && !qOK {
+				ok, msg = false, qMsg
+			}
+			extra = append(extra, qClasses...)
+			if !ok {
+				msg += fmt.Sprintf(" [history: %s]", strings.Join(ps.histDesc, "; "))
+			}
+		}
 		res := o.Result
 		var defs []vfDef
 		coq := plCaseCoqShared("CPipe", ps, q, &o, &defs)
@@ -648,6 +736,99 @@ func TestVerifC01(t *testing.T) {
 			qt := vfPick(rnd, vfQTypes[:7])
 			return &plQuery{Name: name, QType: qt, Addr: netip.MustParseAddr(vfPick(rnd, plClientAddrs)), Answer: c01Answer(rnd, name, qt)}
 		}, emit)
+	}
+
+	// --- round 4: the queue of pending engine rebuilds
+	qGen := func(r *vfRand) func(name string) *plQuery {
+		return func(name string) *plQuery {
+			qt := dns.TypeA
+			if r.Chance(1, 4) {
+				qt = vfPick(r, vfQTypes[:7])
+			}
+			return &plQuery{Name: name, QType: qt, Addr: netip.MustParseAddr(vfPick(r, plClientAddrs)), Answer: c01Answer(r, name, qt)}
+		}
+	}
+	{
+		// two set_rules calls while the loop is away, then the real loop:
+		// the second call's rules are in force (a new name blocked, a name
+		// of the first call excepted)
+		first := []*vfRule{{Pattern: "||a.test^"}, {Pattern: "||x.test^"}}
+		second := []*vfRule{{Pattern: "||a.test^"}, {Pattern: "||x.test^"}, {Pattern: "||x.test^", White: true}, {Pattern: "||xa.test^"}}
+		for variant := 0; variant < 4; variant++ {
+			c := base()
+			c.Lists = []*plList{{Name: "ads", Rules: []*vfRule{{ID: 100, Pattern: "||c.b.a.test^"}}}}
+			ps := plNewServer(t, c)
+			ps.queueMode = true
+			g := qGen(rnd.Fork(8))
+			askA := func(name string, extra ...string) {
+				q := g(name)
+				q.QType, q.Answer = dns.TypeA, c01Answer(rnd.Fork(9), name, dns.TypeA)
+				ps.qAsk(out, q, emit, extra...)
+			}
+			askA("xa.test.")
+			switch variant {
+			case 0:
+				// loop away, two calls, real loop
+				ps.qSetRules(t, out, first)
+				askA("a.test.")
+				ps.qSetRules(t, out, second)
+				askA("xa.test.")
+				ps.qLoop(t, out)
+			case 1:
+				// loop busy installing the first call's task while two more arrive
+				ps.qSetRules(t, out, first)
+				ps.qTake(t, out)
+				ps.qSetRules(t, out, []*vfRule{{Pattern: "||b.a.test^"}})
+				ps.qSetRules(t, out, second)
+				ps.qInstall(t, out)
+				askA("a.test.")
+				askA("xa.test.")
+				ps.qTake(t, out)
+				ps.qInstall(t, out)
+			case 2:
+				// a list switched off and the custom rules changed behind a queued task
+				ps.qTouch(t, out)
+				ps.qSetURL(t, out, 0, false)
+				ps.qSetRules(t, out, second)
+				askA("c.b.a.test.")
+				ps.qLoop(t, out)
+				askA("c.b.a.test.")
+				ps.qSetURL(t, out, 0, true)
+				ps.qSetURL(t, out, 0, true)
+				ps.qTake(t, out)
+				ps.qInstall(t, out)
+				ps.qTake(t, out)
+				ps.qInstall(t, out)
+			default:
+				// a list added, another removed, an unknown one "removed", a known one "added"
+				ps.qSetRules(t, out, first)
+				ps.qAddURL(t, out, &plList{Name: "more", Rules: []*vfRule{{ID: 300, Pattern: "||xa.test^"}}})
+				ps.qAddKnownURL(t, out, 0, true)
+				ps.qRemoveURL(t, out, 0, true)
+				ps.qRemoveURL(t, out, 0, false)
+				ps.qSetRules(t, out, second[:3])
+				ps.qLoop(t, out)
+				ps.qLoop(t, out)
+			}
+			for _, n := range []string{"a.test.", "x.test.", "xa.test.", "b.a.test.", "c.b.a.test."} {
+				askA(n, "prelude-queue-last-change-in-force")
+			}
+			out.Emit(ps.historyCase())
+		}
+	}
+	nQ := out.Scale(36, 1000)
+	for i := 0; i < nQ; i++ {
+		c := plGenCfg(rnd, vfNames)
+		if rnd.Chance(4, 5) {
+			c.ProtEnabled, c.Deadline, c.Filtering = true, 0, true
+		}
+		if rnd.Chance(1, 2) {
+			c.Clients, c.Svcs, c.SB, c.Par = nil, nil, false, false
+		}
+		plGenLists(rnd, c, vfNames)
+		ps := plNewServer(t, c)
+		ps.queueMode = true
+		plRunQueue(t, out, rnd, ps, 14, vfNames, qGen(rnd), emit)
 	}
 
 	// --- round 2 random configurations
